@@ -4,6 +4,7 @@ that all twenty checks stay silent (development tool, companion of alpha_sweep.p
 
   swap : if c: A else: B          ->  if not c: B else: A
   nest : if c: <..leaves>; REST   ->  if c: <..leaves> else: REST        (guard clause to if/else; REST non-empty, body always leaves)
+  unnest : the reverse;   demorgan : a and b -> not (not a or not b);   name : if T: -> cond = T; if cond:
 """
 import ast, copy, json, multiprocessing as mp, os, shutil, subprocess, sys, tempfile
 V = os.path.dirname(os.path.dirname(os.path.abspath(__file__)))
@@ -36,6 +37,12 @@ def sites(tree, kind):
                     out.append((n, fld, i))
                 if kind == "nest" and not s.orelse and leaves(s.body) and i + 1 < len(blk):
                     out.append((n, fld, i))
+                if kind == "unnest" and s.orelse and leaves(s.body) and not (len(s.orelse) == 1 and isinstance(s.orelse[0], ast.If) and False):
+                    out.append((n, fld, i))
+                if kind == "demorgan" and isinstance(s.test, ast.BoolOp):
+                    out.append((n, fld, i))
+                if kind == "name" and not isinstance(s.test, ast.Name) and not any(isinstance(y, (ast.NamedExpr, ast.Await)) for y in ast.walk(s.test)):
+                    out.append((n, fld, i))
     return out
 
 
@@ -59,9 +66,21 @@ def job(a):
         where = f"{rel}:{s.lineno}"
         if kind == "swap":
             s.test, s.body, s.orelse = neg(s.test), s.orelse, s.body
-        else:
+        elif kind == "nest":
             s.orelse = blk[i + 1:]
             del blk[i + 1:]
+        elif kind == "unnest":
+            rest = s.orelse
+            s.orelse = []
+            blk[i + 1:i + 1] = rest
+        elif kind == "demorgan":
+            t = s.test
+            inner = ast.BoolOp(op=ast.Or() if isinstance(t.op, ast.And) else ast.And(), values=[neg(v) for v in t.values])
+            s.test = ast.UnaryOp(op=ast.Not(), operand=inner)
+        elif kind == "name":
+            nm = f"cond_{s.lineno}"
+            blk.insert(i, ast.Assign(targets=[ast.Name(id=nm, ctx=ast.Store())], value=s.test))
+            s.test = ast.Name(id=nm, ctx=ast.Load())
         ast.fix_missing_locations(tree)
         open(p, "w", encoding="utf8").write(ast.unparse(tree) + "\n")
         r = subprocess.run(["/venv/bin/python", f"{V}/tools/run_all.py", dst], capture_output=True, text=True, cwd=V)
